@@ -460,15 +460,23 @@ def regression_replays(propmod, prop, variant, known):
     try:
         for k in entries:
             path = os.path.join(ROOT, k['replay'])
-            if not os.path.exists(path): continue
-            plan = Plan.from_json(json.load(open(path))['plan'])
+            if not os.path.exists(path) or not path.endswith('.json'): continue      # (two early findings are stored as plan text)
+            try:
+                plan = Plan.from_json(json.load(open(path))['plan'])
+                if hasattr(propmod, 'check_point'):
+                    base = w.run(propmod.without_fault(plan)); res = w.run(plan)
+                    info = propmod.base_info(propmod.without_fault(plan), base)
+                    viols = propmod.check_point(plan, res, info) if propmod.has_fault(plan) else propmod.check_base(plan, res)
+                else:
+                    res = w.run(plan); viols = propmod.check(plan, res)
+            except Exception as ex:
+                # a plan stored by an older version of a module that the module can no longer judge: said, not counted
+                sys.stderr.write('regression replay %s could not be judged: %s: %s\n' % (k['replay'], type(ex).__name__, str(ex)[:120]))
+                try: w.stop()
+                except Exception: pass
+                w = Worker(variant, exe=getattr(propmod, 'EXE', 'nsim')); w.start()
+                continue
             n += 1
-            if hasattr(propmod, 'check_point'):
-                base = w.run(propmod.without_fault(plan)); res = w.run(plan)
-                info = propmod.base_info(propmod.without_fault(plan), base)
-                viols = propmod.check_point(plan, res, info) if propmod.has_fault(plan) else propmod.check_base(plan, res)
-            else:
-                res = w.run(plan); viols = propmod.check(plan, res)
             viols = [v for v in viols if not match_known(known, prop, v.cls)]
             if viols: out.append((path, viols[0], k))
     finally:
